@@ -148,7 +148,7 @@ def check_property(prop, tier, seed, jobs):
     args = [(ci, gi, tier, seed) for ci, gi in tasks]
     if jobs > 1 and len(args) > 1:
         ctxm = mp.get_context("fork")
-        with ctxm.Pool(min(jobs, len(args))) as pool:
+        with ctxm.Pool(min(jobs, len(args)), maxtasksperchild=1) as pool:
             results = pool.map(_worker, args, chunksize=1)
     else:
         results = [_worker(a) for a in args]
@@ -269,7 +269,7 @@ def update_lock(jobs):
     tasks = tasks_for(None)
     args = [(ci, gi, "quick", 0) for ci, gi in tasks]
     ctxm = mp.get_context("fork")
-    with ctxm.Pool(jobs) as pool:
+    with ctxm.Pool(jobs, maxtasksperchild=1) as pool:
         results = pool.map(_worker, args, chunksize=1)
     proved = set()
     for res in results:
